@@ -1,3 +1,7 @@
 import PrqlModel.Model.Target
 import PrqlModel.Model.Json
+import PrqlModel.Model.SerdeModel
+import PrqlModel.Lemmas.Serde
 import PrqlModel.Props.C18
+import PrqlModel.Props.C15
+import PrqlModel.Drv
